@@ -77,6 +77,9 @@ def run(ctx: Ctx, rep: Report) -> None:
     # renumbering applies the permutation in one direction to every view
     from .permdir import permdir
     permdir(ctx, rep)
+    # by-value editing (remove, point, count) rests on Operation equality
+    from ..rules.taut import rule_taut
+    rule_taut(ctx, rep, ('bqskit/ir/',), 300)
 
 
 # ---------------------------------------------------------------------------
